@@ -173,6 +173,18 @@ def run(prop, spec, tier, seed, scale, write_evidence):
             stats["diff_compared"] += 1
             if r["c"][7] != bhash:
                 viols.append((line, dict(v="viol", tag="fault-changed-outcome", msg="per-object callback summary of the confluent program differs from the fault-free run (%s vs %s)" % (r["c"][7], bhash)), name))
+    # 3b. the splice / pipe2 fallbacks live in iv_fd_pump: relay sessions with the splice probe failing (read/write mode) and with
+    #     splice available, judged by the stream-equality and state oracles of the pump target
+    pexe = vlib.build("pump")
+    npump = int((8000 if tier == "quick" else 160000) * scale) or 16
+    for mode in (1, 0):
+        summ, fails, samp, broken = vlib.run_batch(pexe, seed * 1000 + 700 + mode, npump // 2, ["prop=C15+C17", "no_splice=%d" % mode], outdir, label="pump%d" % mode)
+        stats["runs"] += summ["evals"]; stats["pump_runs"] = stats.get("pump_runs", 0) + summ["evals"]
+        triples.add(("pump", mode, "splice %s" % ("unavailable (probe fails): read/write fallback" if mode else "available")))
+        for f in fails[:3]:
+            rr = vlib.run_case(pexe, f["file"], ["prop=C15+C17"])
+            if rr["v"] in ("viol", "crash"):
+                viols.append(("%s prop=C15+C17 no_splice=%d" % (f["file"], mode), rr, "iv_fd_pump relay, splice %s" % ("unavailable" if mode else "available")))
     # 4. report
     lines_out = []; nviol = 0; nknown = 0; seen = set()
     for line, r, name in viols:
@@ -197,7 +209,7 @@ def run(prop, spec, tier, seed, scale, write_evidence):
     wall = time.time() - t0
     ev = dict(property_id=prop, tier=tier, seed=seed, level="fault_enumeration",
               coverage=dict(evaluations=stats["runs"], distinct_nontrivial=len(triples),
-                            rule="programs = regression corpus + seeded generated loop programs of the C01-C09 profiles; for each program and each of the 4 poll methods a fault-free run records the number of wait-primitive calls made inside iv_main; then one run per k with EINTR injected at the k-th wait call (every k up to %d, sampled beyond), one run per optional-facility failure (epoll_create1 / epoll_create ENOSYS, epoll_pwait2 ENOSYS and EPERM from call 0/1/2/5/random, timerfd_create ENOSYS, ppoll ENOSYS from call k, eventfd2 EINVAL/ENOSYS, eventfd ENOSYS), and runs under generated IV_EXCLUDE_POLL_METHOD strings (subsets, orders, odd whitespace, unknown names; oracle = first non-excluded method, iv_fatal when all are excluded); every run is judged by all oracles of C01-C04, C06, C07, C09; in addition the CONFLUENT variant of every program (each callback acts only on its own object, driven by choices derived from (case, object, invocation number)) is run fault-free, with EINTR at every k, and with the fallbacks that keep the timeout granularity, and the per-object callback summary must be identical; non-trivial = (program, method, fault) triple in which the fault was actually reached (observed at the system-call boundary)" % max_k,
+                            rule="programs = regression corpus + seeded generated loop programs of the C01-C09 profiles; for each program and each of the 4 poll methods a fault-free run records the number of wait-primitive calls made inside iv_main; then one run per k with EINTR injected at the k-th wait call (every k up to %d, sampled beyond), one run per optional-facility failure (epoll_create1 / epoll_create ENOSYS, epoll_pwait2 ENOSYS and EPERM from call 0/1/2/5/random, timerfd_create ENOSYS, ppoll ENOSYS from call k, eventfd2 EINVAL/ENOSYS, eventfd ENOSYS), and runs under generated IV_EXCLUDE_POLL_METHOD strings (subsets, orders, odd whitespace, unknown names; oracle = first non-excluded method, iv_fatal when all are excluded); every run is judged by all oracles of C01-C04, C06, C07, C09; iv_fd_pump relay sessions are run with the splice probe failing and succeeding under the C17 oracles; in addition the CONFLUENT variant of every program (each callback acts only on its own object, driven by choices derived from (case, object, invocation number)) is run fault-free, with EINTR at every k, and with the fallbacks that keep the timeout granularity, and the per-object callback summary must be identical; non-trivial = (program, method, fault) triple in which the fault was actually reached (observed at the system-call boundary)" % max_k,
                             samples=samples, programs=len(progs), exhaustive=False, eintr_k_exhaustive_up_to=max_k, **stats,
                             violations_reported=nviol, known_findings_reported=nknown),
               assumptions=["faults are injected at the libc boundary with errno values the kernel really produces", "EINTR enumeration is exhaustive in k per program up to the stated bound; programs are sampled"],
